@@ -125,7 +125,11 @@ func (ctx Ctx) coqTypeOfType(n ast.Node, t types.Type) coq.Type {
 	case *types.Signature:
 		ctx.unsupported(n, "function type")
 	case *types.Interface:
-		return coq.InterfaceDecl{Name: ""}
+		// same as coqType for a written interface type
+		if t.Empty() {
+			return coq.TypeIdent("anyT")
+		}
+		ctx.unsupported(n, "non-empty interface")
 	}
 	ctx.nope(n, "unknown type %v", t)
 	return nil // unreachable
